@@ -28,7 +28,8 @@ RULE = ("union of complete sub-lattices of family (lin, tdecay, logistic, osc[tu
 RULE_ADDED = ('Added later: [E] dependent parameters (w a function of the leaf behind p), [F] cotangent scaled by 1'
               'e-10, [G] dissipative families (linear decay with a*T ~ 30, logistic) on long horizons (7 / 26 outpu'
               't times) with adaptive methods and tight requests, with and without bck_options, tolerance 20 n (rto'
-              'l_fwd + rtol_bck) without an amplification factor; call-order plane in fresh interpreters. Round 4: '
+              'l_fwd + rtol_bck) without an amplification factor; call-order plane in fresh interpreters. [G0] a tolerance of exactly 0 (rtol = 0.0: purely absolute, atol = 0: purely relative) in '
+              'the forward options or only in bck_options. Round 4: '
               "[H] the object's parameter re-assigned between the forward call and the backward pass (gradients and"
               " the object's state after backward).")
 ASSUMPTIONS = [
@@ -76,6 +77,10 @@ BCK_ADAPTIVE = {"method": "rk45", "atol": 1e-10, "rtol": 1e-9}
 # plane [G]: tight requests on long horizons of dissipative problems
 TIGHT_OPTS = {"rk45": {"atol": 1e-12, "rtol": 1e-10}, "rk23": {"atol": 1e-11, "rtol": 1e-9}}
 TIGHT_BCK = {"method": "rk45", "atol": 1e-12, "rtol": 1e-10}
+# plane [G'], a tolerance of exactly zero: purely absolute (rtol = 0.0) / purely relative (atol = 0) error control
+ZERO_OPTS = {"abs": {"rk45": {"atol": 1e-11, "rtol": 0.0}, "rk23": {"atol": 1e-10, "rtol": 0.0}},
+             "relonly": {"rk45": {"atol": 0.0, "rtol": 1e-10}, "rk23": {"atol": 0, "rtol": 1e-9}}}
+ZERO_BCK = {"abs": {"method": "rk45", "atol": 1e-11, "rtol": 0.0}, "relonly": {"method": "rk45", "atol": 0, "rtol": 1e-10}}
 
 
 def bck_method(method, bck):
@@ -193,6 +198,21 @@ def cases(tier, seed):
                                         cfgG = _case(fam, "fn" if fam == "logistic" else "edit", m, b, g, rg, cot, od,
                                                      pl, seed)
                                         cfgG["opts"] = "tight"
+                                        out.append(cfgG)
+            # [G'] the same problems with a tolerance of exactly zero in the forward options (inherited by the
+            # backward integration) or only in the backward options
+            for fam in ("diss", "logistic"):
+                for m in (("rk45",) if quick else ("rk45", "rk23")):
+                    for zo in ("abs", "relonly"):
+                        for (b, fw) in (("inherit", None), ("adaptive", None), ("adaptive", "tight")):
+                            for g in (("long7",) if quick else ("long7", "long26")):
+                                for rg in ("y0+p+w+ts", "p"):
+                                    for od in (("1",) if quick else ("1", "2")):
+                                        cfgG = _case(fam, "fn" if fam == "logistic" else "edit", m, b, g, rg, "dense",
+                                                     od, pl, seed)
+                                        cfgG["opts"] = zo
+                                        if fw:
+                                            cfgG["fwd"] = fw
                                         out.append(cfgG)
         # [D] grids
         famD = ["tdecay"] if quick else ["tdecay", "logistic"]
@@ -416,12 +436,15 @@ def _experiment(cfg, v, m):
         w_obj, k_obj, xw_obj = w, k, xw
     fcn, params, mod = build_rhs(fam, rep, c, s, p, xp, w_obj, k_obj, xw_obj)
     tight = cfg.get("opts") == "tight"
-    opts = dict((TIGHT_OPTS if tight else FWD_OPTS).get(method, {}))
+    zero = cfg.get("opts") if cfg.get("opts") in ZERO_OPTS else None
+    opts = dict((ZERO_OPTS[zero] if zero else TIGHT_OPTS if tight else FWD_OPTS).get(method, {}))
+    if cfg.get("fwd") == "tight":       # zero-tolerance request only in the backward options
+        opts = dict(TIGHT_OPTS[method])
     kw = {}
     if cfg["bck"] == "fixed":
         kw["bck_options"] = {"method": cfg["bck_method"]}
     elif cfg["bck"] == "adaptive":
-        kw["bck_options"] = dict(TIGHT_BCK if tight else BCK_ADAPTIVE)
+        kw["bck_options"] = dict(ZERO_BCK[zero] if zero else TIGHT_BCK if tight else BCK_ADAPTIVE)
     n = len(GRIDS[cfg["grid"]])
     cots = _cot(cfg, n, tuple_state, cfg.get("plane", 0), cfg.get("seed", 0))
     grid = _refine(ts, m)
@@ -616,7 +639,11 @@ def run_case(cfg):
                                                           "judged": "euler refinement: error does not shrink like h"},
                                   tensor=x, level=level))
             else:
-                if cfg.get("opts") == "tight":
+                if cfg.get("opts") in ZERO_OPTS:
+                    # as below; the requests (absolute 1e-11 / 1e-10 on values of order one, or relative 1e-10 /
+                    # 1e-9) are all at least as strict as a relative request of 1e-9
+                    rel = K * 20.0 * n * 2e-9
+                elif cfg.get("opts") == "tight":
                     # dissipative problem: local errors are not amplified; every one of the n - 1 segments of the
                     # forward and of the backward integration contributes at most ~ its requested tolerance
                     rt = TIGHT_OPTS[method]["rtol"] + TIGHT_OPTS[cfg["bck_method"]]["rtol"]
